@@ -274,7 +274,29 @@ func (v *Env) eval(x Expr) *Val {
 			return &Val{typ: types.Typ[types.Uint8], c: []string{app("sat", b.c[0], i.c[0])}}
 		}
 		panic("contract: cannot index")
+	case *ESlice:
+		b := v.eval(x.X)
+		lo := "0"
+		if x.Lo != nil {
+			lo = v.eval(x.Lo).c[0]
+		}
+		switch b.typ.Underlying().(type) {
+		case *types.Slice:
+			hi := b.c[2]
+			if x.Hi != nil {
+				hi = v.eval(x.Hi).c[0]
+			}
+			if lo == "0" {
+				return &Val{typ: b.typ, c: []string{b.c[0], b.c[1], hi, b.c[3]}}
+			}
+			return &Val{typ: b.typ, c: []string{b.c[0], app("+", b.c[1], lo), app("-", hi, lo), app("-", b.c[3], lo)}}
+		}
+		panic("contract: slicing of unsupported type")
 	case *ECall:
+		// a pure callback or a functional module function applied in a contract
+		if r := v.applyNamed(x); r != nil {
+			return r
+		}
 		switch x.Fn {
 		case "len":
 			a := v.eval(x.Args[0])
@@ -796,4 +818,68 @@ func (v *Env) inferKeySort(x Expr, name string) (sort string) {
 		return ""
 	}
 	return walk(x)
+}
+
+// applyNamed: f(args) in a contract where f is (a) a function-typed parameter / captured variable declared
+// `callback f pure`, or (b) a module function whose contract says `functional`.
+func (v *Env) applyNamed(x *ECall) *Val {
+	e := v.e
+	// (a) pure callback of the function under verification (or of its parent, for closures)
+	isPure := false
+	for fn := e.fn; fn != nil; fn = fn.Parent() {
+		if c := e.db.byFunc[fname(fn)]; c != nil && c.PureCallbacks[x.Fn] {
+			isPure = true
+		}
+	}
+	if isPure {
+		var fv *Val
+		if pv, ok := v.vars[x.Fn]; ok {
+			fv = pv
+		} else if p, ok := e.freeRef[x.Fn]; ok {
+			fv = e.loadAt(v.st, p.c[0], p.typ.Underlying().(*types.Pointer).Elem())
+		}
+		if fv != nil {
+			if sig, ok := fv.typ.Underlying().(*types.Signature); ok {
+				as := []*Val{fv}
+				for _, a := range x.Args {
+					as = append(as, v.eval(a))
+				}
+				var rt types.Type = sig.Results()
+				if sig.Results().Len() == 1 {
+					rt = sig.Results().At(0).Type()
+				}
+				return e.ufTerm("cb."+x.Fn, as, rt)
+			}
+		}
+	}
+	// (b) functional module function, by short name within the package of the function under verification
+	if e.module != nil {
+		for name, c := range e.db.byFunc {
+			if !c.Functional {
+				continue
+			}
+			short := name
+			if i := strings.LastIndex(short, "."); i >= 0 {
+				short = short[i+1:]
+			}
+			if short != x.Fn {
+				continue
+			}
+			fn := e.module.Funcs[name]
+			if fn == nil {
+				continue
+			}
+			var as []*Val
+			for _, a := range x.Args {
+				as = append(as, v.eval(a))
+			}
+			res := fn.Signature.Results()
+			var rt types.Type = res
+			if res.Len() == 1 {
+				rt = res.At(0).Type()
+			}
+			return e.ufTerm("fn."+name, as, rt)
+		}
+	}
+	return nil
 }
